@@ -21,3 +21,38 @@ Definition valid_parse (c : pconf) (inp : pinput) (start pos0 : N) (t : tree) : 
   | Some sm => root_ok (skip_ws (pc_ws c) inp) start pos0 (in_len inp) (pc_consume c) sm
   | None => false
   end.
+
+(* ---- boolean conditions of the tokenisation theorem (Proofs/GLRTokFull.v), evaluated by the
+   harness on every correspondence case (command 212) --------------------------------------- *)
+
+(* the recognizer matrix has no match for STOP *)
+Definition stop_row_zero (inp : pinput) (stop : N) : bool :=
+  match nth_error (pi_rx inp) (N.to_nat stop) with
+  | None => true
+  | Some row => forallb (N.eqb 0) row
+  end.
+
+(* STOP is never shifted *)
+Definition no_stop_shift (tb : table) (stop : N) : bool :=
+  forallb (fun st => match assoc stop (st_actions st) with
+                     | Some l => negb (existsb is_shift l)
+                     | None => true
+                     end) tb.
+
+Definition is_accept (a : action) : bool := match a with Accept => true | _ => false end.
+
+(* ACCEPT occurs only in the STOP column *)
+Definition accept_only_stop (tb : table) (stop : N) : bool :=
+  forallb (fun st => forallb (fun ya => (fst ya =? stop) || negb (existsb is_accept (snd ya)))
+                             (st_actions st)) tb.
+
+(* no two terminals match with different lengths at one position *)
+Definition rows_uniform (r1 r2 : list N) : bool :=
+  forallb (fun ab => (fst ab =? 0) || (snd ab =? 0) || (fst ab =? snd ab)) (combine r1 r2).
+Definition rx_uniform (inp : pinput) : bool :=
+  forallb (fun r1 => forallb (rows_uniform r1) (pi_rx inp)) (pi_rx inp).
+
+Definition glr_tok_checks (c : pconf) (inp : pinput) : bool :=
+  pc_consume c && (match pc_layout c with None => true | Some _ => false end) &&
+  stop_row_zero inp (pc_stop c) && no_stop_shift (pc_tb c) (pc_stop c) &&
+  accept_only_stop (pc_tb c) (pc_stop c) && rx_uniform inp.
